@@ -104,3 +104,70 @@ def _shrink_candidates(case):
                 yield c
         else:
             yield c
+
+
+def chain_lists(case):
+    """Effective lists along the chain, read off the declaration (spec-level reading of C04)."""
+    pre = [[c["id"] for c in lv["pre"]] for lv in case["levels"] if lv["pre"]]
+    posts = [c["id"] for lv in case["levels"] for c in lv["posts"]]
+    snaps = [s["id"] for lv in case["levels"] for s in lv["snaps"]]
+    return pre, posts, snaps
+
+
+def contracts_by_id(case):
+    out = {}
+    for lv in case["levels"]:
+        for c in lv["pre"]:
+            out[c["id"]] = ("pre", c)
+        for c in lv["posts"]:
+            out[c["id"]] = ("post", c)
+    return out
+
+
+def split_trace(case, obs):
+    """Indices of the body event and the events before / after it."""
+    tr = obs["trace"]
+    bi = next((i for i, ev in enumerate(tr) if ev[0] == "body"), None)
+    if bi is None:
+        return tr, None, []
+    return tr[:bi], tr[bi], tr[bi + 1:]
+
+
+def body_bound(obs):
+    for ev in obs["trace"]:
+        if ev[0] == "body":
+            return dict((k, v) for k, v in ev[1])
+    return None
+
+
+def expected_ret(case):
+    b = case["body"]
+    if ans_kind(b) != "ret":
+        return None
+    if case["kind"] in ("propset", "propdel", "init"):
+        return ["ret", None]
+    return ["ret", b["ret"]["v"]]
+
+
+def py_bound(case):
+    """What CPython binds for the call (simple signatures: receiver + positional-or-keyword parameters)."""
+    pn = case["paramNames"]
+    bound = dict((n, ["o", i]) for n, i in case["kwdefaults"])
+    for n, a in zip(pn, case["args"]):
+        bound[n] = ["o", a]
+    for k, v in case["kwargs"]:
+        bound[k] = ["o", v]
+    return bound
+
+
+def expected_value(case, name, bound, result_id, old):
+    """The object a contract must receive for `name` (C05/C09 reading)."""
+    if name == "_ARGS":
+        return ["t", list(case["args"])]
+    if name == "_KWARGS":
+        return ["d", sorted([k, v] for k, v in case["kwargs"])]
+    if name == "result":
+        return ["o", result_id]
+    if name == "OLD":
+        return ["old", old]
+    return bound.get(name)
